@@ -124,7 +124,7 @@ def _dispatch(mod, body, target):
 
 
 def gen(repo):
-    o = Out("laspy/header.py LasHeader._prefetch_header_data / read_evlrs / read_from, laspy/lib.py open_las, "
+    o = Out("laspy/header.py LasHeader._prefetch_header_data / read_evlrs / read_from (and where the point format is decided), laspy/lib.py open_las, "
             "laspy/lasreader.py LasReader.read / _create_point_source, UncompressedPointReader.read_n_points, "
             "laspy/lasmmap.py LasMMAP.__init__")
     hmod = parse(repo, "laspy/header.py")
@@ -219,6 +219,62 @@ def gen(repo):
         _require("self.evlrs: Optional[VLRList] = None" in _norm(init), "a new header has evlrs = None")
         return "Definition gen_read_from_shape : bool := true.\n"
     o.add("read_from", read_from)
+
+    def format_shape():
+        """the point format is a function of the header and of the VLRs: LasHeader.read_from builds it from the format id, the point
+        size and `header._vlrs.get('ExtraBytesVlr')` and stores it BEFORE `if read_evlrs:`, whose body is the loading of the EVLRs (and
+        the rewinding of the local buffer) and is followed by `return header` only; the EVLRs are never looked at in read_from; and the
+        code that loads EVLRs once the header is parsed (LasHeader.read_evlrs, LasReader.read / read_evlrs, LasMMAP.__init__) stores
+        nothing but the EVLR list and calls nothing but what it calls today (no method that could rebuild the point format)"""
+        f = find_func(hcls, "read_from", decorator="classmethod")
+        body = _strip_doc(f.body)
+        _require(_norm(body[-1]) == "return header", "read_from ends with `return header`")
+        tail = body[-2]
+        _require(isinstance(tail, ast.If) and _norm(tail.test) == "read_evlrs" and not tail.orelse
+                 and [_norm(x) for x in tail.body] in (["header.read_evlrs(original_stream)", "stream.seek(header.offset_to_point_data)"],
+                                                        ["header.read_evlrs(original_stream)"]),
+                 "read_from: `if read_evlrs:` does something else than load the EVLRs (and rewind the local buffer), or is not the last statement before `return header`")
+        stores = [i for i, x in enumerate(body) if isinstance(x, ast.Assign) and [_norm(t) for t in x.targets] == ["header._point_format"]]
+        _require(len(stores) == 1 and _norm(body[stores[0]].value) == "point_format" and stores[0] < len(body) - 2,
+                 "read_from: `header._point_format = point_format` once, before the EVLRs are loaded")
+        all_stores = [n for n in ast.walk(f) if isinstance(n, ast.Attribute) and n.attr in ("_point_format", "point_format") and isinstance(n.ctx, ast.Store)]
+        _require(len(all_stores) == 1, "read_from stores the point format more than once")
+        _require("header._vlrs.get('ExtraBytesVlr')" in _norm(f), "read_from: the extra dimensions come from the Extra Bytes record of the VLRs")
+        for n in ast.walk(f):
+            if isinstance(n, ast.Attribute) and n.attr in ("evlrs", "_evlrs"):
+                raise Untranslatable(f"read_from looks at the EVLRs: {_norm(n)}")
+        rmod = parse(repo, "laspy/lasreader.py")
+        rcls = find_class(rmod, "LasReader")
+        mcls = find_class(parse(repo, "laspy/lasmmap.py"), "LasMMAP")
+        allowed = {
+            "LasHeader.read_evlrs": (find_func(hcls, "read_evlrs"),
+                                     {"VLRList", "VLRList.read_from", "getattr", "getattr(stream, 'seekable', lambda: False)", "stream.seek", "stream.tell"},
+                                     {"self.evlrs"}),
+            "LasReader.read": (find_func(rcls, "read"),
+                               {"LasData", "LocalReader", "VLRList", "VLRList.read_from", "deepcopy", "errors.LaspyException", "getattr",
+                                "getattr(self.point_source.source, 'seekable', lambda: False)", "isinstance", "len",
+                                "self.point_source.read_chunk_table_only", "self.point_source.source.read", "self.read_evlrs", "self.read_points",
+                                "self.source.read_raw_bytes"},
+                               {"self.evlrs", "self.header.evlrs", "self.source"}),
+            "LasReader.read_evlrs": (find_func(rcls, "read_evlrs"), {"self.header.read_evlrs"}, set()),
+            "LasMMAP.__init__": (find_func(mcls, "__init__"),
+                                 {"LasHeader.read_from", "VLRList", "VLRList.read_from", "ValueError", "fileref.fileno", "m.seek", "mmap.mmap", "open",
+                                  "record.PackedPointRecord.from_buffer", "self.mmap.seek", "super", "super().__init__"},
+                                 {"header.evlrs", "self.fileref", "self.mmap"}),
+        }
+        for name, (fn, calls, attr_stores) in allowed.items():
+            got = {_norm(n.func) for n in ast.walk(fn) if isinstance(n, ast.Call)}
+            _require(got <= calls, f"{name} calls {sorted(got - calls)}: not among the calls known to leave the point format alone")
+            st = {_norm(n) for n in ast.walk(fn) if isinstance(n, ast.Attribute) and isinstance(n.ctx, ast.Store)}
+            _require(st <= attr_stores, f"{name} stores {sorted(st - attr_stores)}")
+        # LasReader.evlrs is the header's list (so that `self.evlrs = ..` stores nothing else)
+        ev = [n for n in rcls.body if isinstance(n, ast.FunctionDef) and n.name == "evlrs"]
+        _require(sorted(_norm(x) for fn in ev for x in _strip_doc(fn.body)) == ["return self.header.evlrs", "self.header.evlrs = evlrs"],
+                 "LasReader.evlrs is not a property over header.evlrs")
+        return ("(* header.point_format is built from the format id, the point size and the VLRs, before any EVLR is loaded; nothing that loads\n"
+                "   EVLRs afterwards stores or calls anything but the EVLR list *)\n"
+                "Definition gen_format_from_vlrs_only : bool := true.\n")
+    o.add("format_shape", format_shape)
 
     def vlr_reads():
         vmod = parse(repo, "laspy/vlrs/vlrlist.py")
